@@ -223,6 +223,24 @@ def build_soft(w, ADJ, MISSING):
         raises={'UnresolvedReferenceError': dict(only_if=MISSING), 'CycleError': dict(ensures=['GCYC_HARD(graph, cstk, cj)'])},
         hints={'ghost_out': OUTS})
 
+def extra_obligations(w, tier, seed):
+    """graph construction for SDL declarations (edgeql/declarative.py _register_item): the hard dependencies collected for a declaration are handed to the sorter UNFILTERED --
+    in particular a reference of a declaration to itself stays in `deps` (that self-edge is how a recursively defined alias / computed pointer is reported as a cycle), while
+    the soft ones exclude the declaration itself.  Shape obligation on the two statements that store them."""
+    import ast
+    from pyvc import repo
+    fn, _ = repo.find_def('edb/edgeql/declarative.py', '_register_item')
+    hard = [n for n in ast.walk(fn) if isinstance(n, ast.AugAssign) and ast.unparse(n.target) == 'node.deps']
+    weak = [n for n in ast.walk(fn) if isinstance(n, ast.AugAssign) and ast.unparse(n.target) == 'node.weak_deps']
+    other = [n.lineno for n in ast.walk(fn) if isinstance(n, ast.Assign) and any(ast.unparse(t) in ('node.deps', 'node.weak_deps') for t in n.targets)]
+    removed = [n.lineno for n in ast.walk(fn) if isinstance(n, ast.Call) and isinstance(n.func, ast.Attribute) and n.func.attr in ('discard', 'remove', 'difference_update', 'clear', 'pop')
+               and ast.unparse(n.func.value) in ('deps', 'node.deps')]
+    ok = len(hard) == 1 and isinstance(hard[0].op, ast.BitOr) and ast.unparse(hard[0].value) == 'deps' and not other and not removed
+    definite_bad = (len(hard) == 1 and isinstance(hard[0].value, ast.BinOp) and isinstance(hard[0].value.op, ast.Sub)) or bool(removed)
+    return [dict(id='scan/_register_item/hard-deps-unfiltered', kind='shape', tag='property', paths=1, status='discharged' if ok else ('failed' if definite_bad else 'unknown'), backend='ast-scan', seconds=0.0,
+                 clause='declarative._register_item stores the collected hard dependencies with `node.deps |= deps` (nothing subtracted, self-references included); only weak_deps exclude the declaration itself',
+                 model=None if ok else {'offending_source_location': [ast.unparse(n) for n in hard] + removed}, where='; '.join(ast.unparse(n) for n in hard + weak), function='ast-scan')]
+
 def scenarios(tier, seed, repo_root, outdir):
     """bounded stand-in: small graphs through the real sort / normalize, against the property text"""
     import os, json, subprocess
@@ -234,6 +252,7 @@ def scenarios(tier, seed, repo_root, outdir):
     p = subprocess.run(['/venv/bin/python', os.path.join(here, 'scenario.py'), str(seed), str(nmax), str(nrand), str(nrmax), out], capture_output=True, text=True, env=env, cwd=repo_root, timeout=3000)
     if not os.path.exists(out): raise RuntimeError('scenario runner failed: ' + (p.stderr or p.stdout)[-2000:])
     r = json.load(open(out))
-    return dict(evaluations=r['graphs'], failure=r['failure'],
-                label='all graphs <= %d nodes with every ordered pair labelled none/dep/merge/weak (+ missing references) and %d random graphs <= %d nodes (bounded)' % (nmax, nrand, nrmax),
+    if not r['failure'] and r.get('caller_runs', 0) < 100: raise RuntimeError('caller-level explorer is vacuous: %r' % r.get('caller_runs'))
+    return dict(evaluations=r['graphs'] + r.get('caller_runs', 0), failure=r['failure'],
+                label='the real schema.delta.sort_by_inheritance on every inheritance DAG <= 4 types x subsets x input orders; all graphs <= %d nodes with every ordered pair labelled none/dep/merge/weak (+ missing references) and %d random graphs <= %d nodes (bounded)' % (nmax, nrand, nrmax),
                 clause='each item once, after all hard dependencies; CycleError iff hard graph cyclic; soft edges honoured when acyclic; unresolved references; normalize')
